@@ -16,7 +16,9 @@ type pollQueue struct {
 
 func newPollQueue() *pollQueue {
 	return &pollQueue{
-		ready: make(chan struct{}),
+		// Buffered, so that a signal sent between the emptiness check
+		// and the wait of `poll` is not lost.
+		ready: make(chan struct{}, 1),
 	}
 }
 
@@ -29,12 +31,20 @@ func (pq *pollQueue) poll(pollTimeout time.Duration) []*parser.Packet {
 		return packets
 	}
 
-	select {
-	case <-pq.ready:
-		packets = pq.get()
-	case <-time.After(pollTimeout):
+	timeout := time.After(pollTimeout)
+	for {
+		select {
+		case <-pq.ready:
+			packets = pq.get()
+			// The signal can be a leftover of packets that were already retrieved.
+			// Keep waiting in that case instead of answering empty.
+			if len(packets) > 0 {
+				return packets
+			}
+		case <-timeout:
+			return packets
+		}
 	}
-	return packets
 }
 
 // add a packet to the queue and signal the other goroutine (if any).
